@@ -132,7 +132,52 @@ def census_problems(o):
                     want = P.custom_model_pkas.get(key, P.model_pkas[g.residue_type])
                     if abs(g.model_pka - want) > 1e-12:
                         probs.append("%s: ligand group %s model pKa %r, configured %r" % (cname, g.label, g.model_pka, want))
+        # a ligand carboxylate, read off the bonds alone: a hetero carbon bonded to one carbon and to two oxygens that have no
+        # other bond is an OCO group with the configured model pKa - whatever the order of the records
+        for a in conf.atoms:
+            if a.type != "hetatm" or a.element != "C" or a.res_name.strip() in P.ions:
+                continue
+            nb = a.bonded_atoms
+            ox = [b for b in nb if b.element == "O"]
+            if len(nb) == 3 and len(ox) == 2 and sum(1 for b in nb if b.element == "C") == 1 and all(len(b.bonded_atoms) == 1 for b in ox):
+                nsites += 1
+                gs = [g for g in by_atom.get(id(a), [])]
+                if len(gs) != 1 or gs[0].type != "OCO" or "OCO" not in P.model_pkas:
+                    probs.append("%s: ligand carboxylate %s (%s) is %s" % (cname, a.residue_label, ",".join(b.name for b in ox),
+                                                                         [g.type for g in gs] or "not a group"))
     return probs, nsites
+
+
+def oxygens_first(lines):
+    """the records of every hetero residue re-ordered: its oxygens first (a legal order: tartrate is deposited as O1 O11 C1 ...)"""
+    out = []
+    for it in pdbgen.split_residues(lines):
+        if it[0] == "res" and it[2][0].startswith("HETATM") and len(it[2]) > 2:
+            out += [l for l in it[2] if l[12:16].strip().startswith("O")] + [l for l in it[2] if not l[12:16].strip().startswith("O")]
+        else:
+            out += it[2]
+    return out
+
+
+def altloc_on_ligand_oxygen(lines):
+    """one oxygen of a hetero carboxylate gets alternate locations A and B (0.1 A apart): in conformation B it precedes its carbon"""
+    out, done = [], False
+    for it in pdbgen.split_residues(lines):
+        if not done and it[0] == "res" and it[2][0].startswith("HETATM") and len(it[2]) > 4:
+            ox = [l for l in it[2] if l[12:16].strip().startswith("O") and l[16] == " "]
+            if ox:
+                l = ox[-1]
+                x, y, z = pdbgen.coords(l)
+                for m in it[2]:
+                    if m is l:
+                        out.append(pdbgen.setcols(m, 16, 17, "A"))
+                        out.append(pdbgen.setcols(pdbgen.set_coords(m, round(x + 0.1, 3), y, z), 16, 17, "B"))
+                    else:
+                        out.append(m)
+                done = True
+                continue
+        out += it[2]
+    return out if done else None
 
 
 SUMMARY_RE = re.compile(r"^   (.{9}) (.{8}) (.{10}) ")
@@ -202,6 +247,13 @@ def gen_inputs(ctx):
         out.append(("corpus:" + f.name, r["pdb"], r.get("args", [])))
     for name, t in pdbgen.test_files(["1HPX", "conf-alt-AB", "conf-model-missing-atoms", "sample-issue-140", "1FTJ-Chain-A"] if ctx.quick() else None):
         out.append((name, t, []))
+    # ligands whose records come in another order, or whose atoms have alternate locations: perception must not depend on it
+    for name, t in pdbgen.test_files(["1FTJ-Chain-A"] if ctx.quick() else ["1FTJ-Chain-A", "4DFR", "1HPX"]):
+        ls = pdbgen.lines_of(t)
+        out.append((name + "+ligand-oxygens-first", pdbgen.text(oxygens_first(ls)), []))
+        al = altloc_on_ligand_oxygen(ls)
+        if al is not None and "4DFR" not in name:
+            out.append((name + "+ligand-altloc", pdbgen.text(al), []))
     for i in range(40 if ctx.quick() else 500):
         ter = rnd.choice(["TER   \n", "TER\n", None, "TER      12      ALA A  12\n", "TER  \n"])
         lines, ids = pdbgen.multichain(rnd, ter=ter, oxt_prob=rnd.choice([0, 0.5, 1]))
